@@ -1,4 +1,5 @@
 #!/bin/sh
-# seedeval_all.sh Cxx [tier] : evaluate /tmp/seedout_Cxx/{1,2}
-P=$1; T=${2:-quick}
-for k in 1 2; do [ -f /tmp/seedout_$P/$k/patch.diff ] && /verif/tools/seedeval.sh $P /tmp/seedout_$P/$k $T; done > /tmp/chk/seed_$P.txt 2>&1
+# seedeval_all.sh Cxx [tier] [base] : evaluate <base>_Cxx/{1,2} (base default /tmp/seedout)
+P=$1; T=${2:-quick}; B=${3:-/tmp/seedout}
+mkdir -p /tmp/chk
+for k in 1 2; do [ -f ${B}_$P/$k/patch.diff ] && /verif/tools/seedeval.sh $P ${B}_$P/$k $T; done > /tmp/chk/$(basename $B)_$P.txt 2>&1
